@@ -339,6 +339,63 @@ class WalkTwice(Walk):
         return main, mon, root
 
 
+class CountsVsParallel(StageHarness):
+    """C13 with worker processes: ONE pyramid object reports its counts, is then walked in parallel and has its
+    leaves visited in parallel (two parallel operations of one process, in the given order); what the workers
+    visited is what was reported and what the reference quadtree says."""
+
+    stage = "counts_vs_parallel"
+    order = ("walk", "leaves")
+
+    def _pyr(self):
+        return make_pyramid(self.kind, self.depth, getattr(self, "accepted", None), getattr(self, "apex", None), getattr(self, "coordsys", None))
+
+    def expected_items(self):
+        if self._expected is None:
+            m = ref_model(self.kind, self.depth, getattr(self, "accepted", None), getattr(self, "apex", None))
+            self._expected = [("op",) + tuple(p) for p in m.ops] + [("leaf",) + tuple(p) for p in m.leaves]
+            self._nops, self._nleaves = len(m.ops), len(m.leaves)
+        return self._expected
+
+    def fresh(self):
+        self.expected_items()
+        mon = DeliveryMonitor()
+        pyr = self._pyr()
+        W = self.W
+        reported = {}
+        self._reported = reported
+
+        def fn_op(mon, pos):
+            mon.deliver(("op",) + tuple(pos))
+
+        def fn_leaf(mon, pos, tile):
+            mon.deliver(("leaf",) + tuple(pos))
+
+        cb_op, cb_leaf = Recorder(mon, fn_op), Recorder(mon, fn_leaf)
+        order = self.order
+
+        def main():
+            reported["ops"] = pyr.count_operations()
+            reported["leaves"] = pyr.count_leaf_tiles()
+            reported["live"] = pyr.count_live_tiles()
+            for what in order:
+                if what == "walk":
+                    pyr.walk(cb_op, parallel=W)
+                else:
+                    pyr.visit_leaves(cb_leaf, parallel=W)
+
+        return self.with_foreign_child(main), mon, None
+
+    def at_terminal(self, sched, mon):
+        viol, obs = StageHarness.at_terminal(self, sched, mon)
+        r = self._reported
+        nops = sum(1 for k in mon.delivered if k[0] == "op")
+        nleaves = sum(1 for k in mon.delivered if k[0] == "leaf")
+        if sched.main().outcome[0] == "return" and (r.get("ops") != nops or r.get("leaves") != nleaves or r.get("live") != nops + nleaves):
+            viol.append(("reported-counts-differ-from-visits", "reported operations/leaves/live = %r/%r/%r; the workers visited %d operations and %d leaves" % (r.get("ops"), r.get("leaves"), r.get("live"), nops, nleaves)))
+        return viol, obs
+
+
 class Transform(StageHarness):
     stage = "transform"
 
@@ -799,7 +856,7 @@ def register(cls):
     return cls
 
 
-for _c in (VisitLeaves, Walk, WalkTwice, Transform, MultiTan, MultiWcs, LeafWrites):
+for _c in (VisitLeaves, Walk, WalkTwice, Transform, MultiTan, MultiWcs, LeafWrites, CountsVsParallel):
     register(_c)
 
 
